@@ -159,22 +159,49 @@ theorem hullMax_eq_of_ge (xs : List Int) (a : Int) (h : ∀ x ∈ xs, x ≤ a) :
   · exact h'
   · have := h _ h'; have := (foldl_max_ge xs a).1; unfold hullMax; omega
 
-/-- the constructor on an already well-formed entry list: nothing is reordered or rejected, the span is the hull -/
-theorem mkITier_of_wf (name : String) (es : List (Iv Int)) (lo hi : Int)
+/-- the constructor on an already well-formed entry list, ANY requested bounds: nothing is reordered or rejected, the
+span is the hull — with the two ends put in order (fix 9432f3b; only an entry-less tier with a reversed request is affected) -/
+theorem mkITier_of_wf_any (name : String) (es : List (Iv Int)) (lo hi : Int)
     (hp : Pos es) (hd : Disj es) (hs : Stripped es) :
     mkITier name es (some lo) (some hi) =
-      .ok ⟨name, es, hullMin (es.map (·.s)) lo, hullMax (es.map (·.e)) hi⟩ := by
+      .ok ⟨name, es, min (hullMin (es.map (·.s)) lo) (hullMax (es.map (·.e)) hi),
+        max (hullMin (es.map (·.s)) lo) (hullMax (es.map (·.e)) hi)⟩ := by
   unfold mkITier
   simp only [map_strip_of_stripped es hs, sortIvs_of_wf es hp hd, Option.toList_some,
     pyMinList_append_single, pyMaxList_append_single]
   rw [(ivsAllPos_iff es).2 hp, ivsNoOverlap_of_disj es hd]
-  rfl
+  simp only [Bool.and_self, if_true]
+  congr 2 <;> split <;> omega
+
+/-- the hull is in order as soon as the request is, or the tier has an entry -/
+theorem hull_ordered (es : List (Iv Int)) (lo hi : Int) (hp : Pos es) (h : lo ≤ hi ∨ es ≠ []) :
+    hullMin (es.map (·.s)) lo ≤ hullMax (es.map (·.e)) hi := by
+  have h1 := hullMin_le (es.map (·.s)) lo
+  have h2 := hullMax_ge (es.map (·.e)) hi
+  rcases h with h | h
+  · omega
+  · cases es with
+    | nil => exact absurd rfl h
+    | cons x xs =>
+      have := h1.2 x.s (by simp)
+      have := h2.2 x.e (by simp)
+      have := hp x (by simp)
+      omega
+
+/-- the constructor on an already well-formed entry list with the requested bounds in order: the span is the hull -/
+theorem mkITier_of_wf (name : String) (es : List (Iv Int)) (lo hi : Int) (hlh : lo ≤ hi)
+    (hp : Pos es) (hd : Disj es) (hs : Stripped es) :
+    mkITier name es (some lo) (some hi) =
+      .ok ⟨name, es, hullMin (es.map (·.s)) lo, hullMax (es.map (·.e)) hi⟩ := by
+  rw [mkITier_of_wf_any name es lo hi hp hd hs]
+  have := hull_ordered es lo hi hp (Or.inl hlh)
+  congr 2 <;> omega
 
 theorem mkITier_wf (name : String) (es : List (Iv Int)) (lo hi : Int) (hlh : lo ≤ hi)
     (hp : Pos es) (hd : Disj es) (hs : Stripped es) :
     ∃ t, mkITier name es (some lo) (some hi) = .ok t ∧ t.WF ∧ t.es = es ∧ t.name = name ∧
       t.lo = hullMin (es.map (·.s)) lo ∧ t.hi = hullMax (es.map (·.e)) hi := by
-  refine ⟨_, mkITier_of_wf name es lo hi hp hd hs, ?_, rfl, rfl, rfl, rfl⟩
+  refine ⟨_, mkITier_of_wf name es lo hi hlh hp hd hs, ?_, rfl, rfl, rfl, rfl⟩
   have h1 := hullMin_le (es.map (·.s)) lo
   have h2 := hullMax_ge (es.map (·.e)) hi
   exact {
